@@ -558,3 +558,90 @@ pub fn run_sound(tkind: TKind, depth: usize, pcm_only: bool) {
     w.with_transport(V { depth, pcm_only });
     mmio::set_handler(None);
 }
+
+// ------------------------------------------------------------------------------------------
+// A device with many streams (more than fit one plausible batch of an information query): the
+// capabilities returned for every stream id equal what the device reported for that id.
+
+fn many_info_bytes(id: u32) -> Vec<u8> {
+    let mut v = (0x10u32 + id).to_le_bytes().to_vec();
+    v.extend((id % 4).to_le_bytes()); // features
+    v.extend((0x20u64 + id as u64).to_le_bytes()); // formats
+    v.extend((1u64 << (id % 14)).to_le_bytes()); // rates
+    v.push((id % 3 == 0) as u8); // direction: every third stream is an input
+    v.push(1 + (id % 2) as u8);
+    v.push(2 + (id % 5) as u8);
+    v.extend([0u8; 5]);
+    v
+}
+
+/// One execution per stream count.
+pub fn run_many_streams(tkind: TKind, streams: u32) -> Vec<(String, String)> {
+    struct VM {
+        streams: u32,
+    }
+    impl TransportVisitor for VM {
+        type Out = Vec<(String, String)>;
+        fn visit<T: Transport + 'static>(self, t: T, w: &DWorld) -> Self::Out {
+            let mut out = vec![];
+            let co: CoRc = CoDevice::new(
+                w.dev.clone(),
+                Box::new(move |q, chain, readable| {
+                    if q != 0 {
+                        return Action::Hold;
+                    }
+                    let mut resp = S_OK.to_le_bytes().to_vec();
+                    match decode_ctl(readable) {
+                        Ctl::PcmInfo { start, count, .. } => {
+                            for j in start..start.saturating_add(count) {
+                                resp.extend(many_info_bytes(j));
+                            }
+                        }
+                        _ => resp.resize(chain.writable_len(), 0),
+                    }
+                    resp.truncate(chain.writable_len());
+                    let n = resp.len() as u32;
+                    Action::Complete(resp, n)
+                }),
+            );
+            co.borrow_mut().spin_horizon = 16;
+            cosim::install(&co);
+            let mut snd = match VirtIOSound::<LabHal, T>::new(t) {
+                Ok(s) => s,
+                Err(e) => {
+                    cosim::uninstall();
+                    return vec![("construction".into(), format!("{:?}", e))];
+                }
+            };
+            let want_in: Vec<u32> = (0..self.streams).filter(|i| i % 3 == 0).collect();
+            let want_out: Vec<u32> = (0..self.streams).filter(|i| i % 3 != 0).collect();
+            let (o, i) = (snd.output_streams(), snd.input_streams());
+            if o != Ok(want_out) || i != Ok(want_in) {
+                out.push(("stream-directions".into(), format!("{} streams: output_streams() = {:?}, input_streams() = {:?}; the device reports every third stream (0, 3, ...) as an input", self.streams, o, i)));
+            }
+            for id in 0..self.streams {
+                let f = snd.features_supported(id).map(|x| x.bits());
+                let fm = snd.formats_supported(id).map(|x| x.bits());
+                let ra = snd.rates_supported(id).map(|x| x.bits());
+                let ch = snd.channel_range_supported(id);
+                if f != Ok(id % 4) || fm != Ok(0x20 + id as u64) || ra != Ok(1u64 << (id % 14)) || ch != Ok((1 + (id % 2) as u8)..=(2 + (id % 5) as u8)) {
+                    out.push(("stream-capabilities".into(), format!("stream {} of {}: features {:?} formats {:?} rates {:?} channels {:?} differ from what the device reported for that stream", id, self.streams, f, fm, ra, ch)));
+                    break;
+                }
+            }
+            drop(snd);
+            for e in co.borrow_mut().errors.drain(..) {
+                out.push(("chain-malformed".into(), e));
+            }
+            cosim::uninstall();
+            out
+        }
+    }
+    hal::reset();
+    let mut cfg = vec![0u8; 12];
+    cfg[4..8].copy_from_slice(&streams.to_le_bytes());
+    let w = DWorld::new(Kind::Sound, tkind, F_VERSION_1, cfg);
+    let r = w.with_transport(VM { streams });
+    mmio::set_handler(None);
+    r
+}
